@@ -298,6 +298,7 @@ theorem facts_c05_faults :
       "if-init:i.writeCrtLists();err!=nil=>return:fmt.Errorf",
       "call:timer.Tick", "if:!i.options.fake", "assign:updater:=i.newDynUpdater()", "assign:updated:=updater.update()",
       "if:rewrite{updated=false}",
+      "if:rewrite{i.config.Backends().SortAllEndpoints;i.config.Backends().FillAllSourceIPs}",
       "if:i.options.SortEndpointsBy!=\"random\"{i.config.Backends().SortChangedEndpoints}",
       "call:i.config.Backends().FillSourceIPs",
       "if:!updated||updater.cmdCnt>0||i.config.Backends().Changed()", "assign:i.rewriteOwed=false",
